@@ -221,7 +221,10 @@ def mon_c02(ex, info, col):
             prev_rec = phs["recorded"][1]
     # logs after remove_absence_time_list(): what is left are working steps, so every logged WORKING step shows exactly the progress of its logged allocation
     # (models without personal calendars; a backward result with reversed logs is read in the order the run produced it)
-    if ex.opts.get("post_remove") and not ex.opts.get("post_insert") and not ex.opts.get("res_absence") and ex.error is None \
+    # ... and likewise for a result that was looked at through the read-only helpers at a stop (printing and chart helpers must leave the records alone);
+    # there the project-wide absence steps are still in the logs and are skipped (a WORKING task is displayed READY in them)
+    looked = bool(ex.opts.get("pause_queries")) and not ex.opts.get("post_remove") and not ex.opts.get("backward") and not ex.opts.get("unit_time")
+    if (ex.opts.get("post_remove") or looked) and not ex.opts.get("post_insert") and not ex.opts.get("res_absence") and ex.error is None \
             and not any(r.get("absence") or r.get("absence_after") or r.get("absence_late") for r in list(info.workers.values()) + list(info.facilities.values())):
         flip = bool(ex.opts.get("backward")) and bool(ex.opts.get("rev", True))
         for tn in info.tnames:
@@ -234,7 +237,10 @@ def mon_c02(ex, info, col):
             fl = [list(e or ()) for e in task.allocated_facility_id_record]
             if flip:
                 sl, rl, wl, fl = sl[::-1], rl[::-1], wl[::-1], fl[::-1]
+            skip = absn_of(ex) if looked else set()
             for k in range(1, min(len(sl), len(rl), len(wl), len(fl))):
+                if k in skip:
+                    continue
                 col.checks["c02.log-perform"] += 1
                 if sl[k] == S.T_WORKING:
                     c = contribution(ex, info, tn, k, True, {"tasks": {tn: (S.T_WORKING, rl[k - 1], tuple(wl[k]), tuple(fl[k]))}})
@@ -243,7 +249,7 @@ def mon_c02(ex, info, col):
                 else:
                     continue
                 if abs((rl[k - 1] - rl[k]) - c) > TOL:
-                    out.append(V("C02", "C02:logged-progress-differs-from-logged-allocation(after-removal-of-absence-steps)", ex,
+                    out.append(V("C02", "C02:logged-progress-differs-from-logged-allocation(%s)" % ("result-looked-at-through-read-only-helpers-at-a-stop" if looked else "after-removal-of-absence-steps"), ex,
                                  {"task": tn, "k": k, "state": S.TSTATE_NAME.get(sl[k]), "before": rl[k - 1], "after": rl[k], "expected_decrease": c, "workers": wl[k], "facilities": fl[k]}))
     # logs: remaining is reported 0 from the step a task is first logged FINISHED; initial value
     for tn in info.tnames:
